@@ -115,7 +115,8 @@ pub proof fn lemma_cnt_range(ap: Seq<usize>, ai: Seq<usize>, etree: Seq<usize>, 
 pub open spec fn visited(work: Seq<usize>, j: int, c: int) -> bool { 0 <= c < j && c < work.len() && work[c] == j }
 // every marked node has its parent link set, and the parent is j, marked, or the node `cur` the walk is standing on
 pub open spec fn closed_except(etree: Seq<usize>, work: Seq<usize>, j: int, cur: int) -> bool {
-    forall|x: int| 0 <= x < j && x < work.len() ==> (#[trigger] work[x] == j ==> x < etree.len() && x < etree[x] <= j && etree[x] < work.len()
+    // (trigger etree[x], not work[x]: the body mentions work[etree[x]], which would re-trigger the quantifier along the whole path)
+    forall|x: int| #![trigger etree[x]] 0 <= x < j && x < work.len() && x < etree.len() ==> (work[x] == j ==> x < etree[x] <= j && etree[x] < work.len()
         && (work[etree[x] as int] == j || etree[x] == cur))
 }
 pub proof fn lemma_closed_path(etree: Seq<usize>, work: Seq<usize>, j: int, x: int, c: int)
@@ -129,22 +130,29 @@ pub proof fn lemma_pass_done(n: int, ap: Seq<usize>, ai: Seq<usize>, e0: Seq<usi
     requires
         0 <= j < n, work.len() >= n, etree.len() == n, work[j] == j,
         ap.len() == n + 1, ap[j] <= ap[j + 1] <= ai.len(),
-        lnz_covers(n, ap, ai, e0, lnz0, j), same_below(e0, etree, j), lnz.len() == n,
-        forall|c: int| 0 <= c < n ==> #[trigger] lnz[c] >= lnz0[c],
-        forall|c: int| 0 <= c < j ==> (#[trigger] work[c] == j ==> lnz[c] >= lnz0[c] + 1),
+        lnz0.len() == n, forall|c: int| 0 <= c < n ==> #[trigger] lnz0[c] == cnt(ap, ai, e0, c, j),
+        same_below(e0, etree, j), lnz.len() == n,
+        // every node marked in this pass was counted once, no other node was
+        forall|c: int| 0 <= c < n ==> #[trigger] lnz[c] == lnz0[c] + (if c < j && work[c] == j { 1int } else { 0int }),
+        // marked nodes lie on the elimination path of an entry of column j (soundness) ...
+        forall|c: int| 0 <= c < j ==> (#[trigger] work[c] == j ==> in_v(ap, ai, e0, j, c)),
+        // ... and all of them are marked (completeness): closure under parent links + every entry's row marked
         closed_except(etree, work, j, j),
         forall|p: int| ap[j] <= p < ap[j + 1] ==> #[trigger] ai[p] <= j,
         forall|p: int| ap[j] <= p < ap[j + 1] ==> work[#[trigger] ai[p] as int] == j,
-    ensures lnz_covers(n, ap, ai, etree, lnz, j + 1),
+    ensures lnz_exact(n, ap, ai, etree, lnz, j + 1),
 {
-    assert forall|c: int| 0 <= c < n implies #[trigger] lnz[c] >= cnt(ap, ai, etree, c, j + 1) by {
+    assert forall|c: int| 0 <= c < n implies #[trigger] lnz[c] == cnt(ap, ai, etree, c, j + 1) by {
         lemma_cnt_stable(ap, ai, e0, etree, c, j);
-        assert(lnz0[c] >= cnt(ap, ai, e0, c, j));
+        lemma_in_v_stable(ap, ai, e0, etree, j, c);
+        assert(lnz0[c] == cnt(ap, ai, e0, c, j));
         if in_v(ap, ai, etree, j, c) {
             let p = choose|p: int| #[trigger] in_v_at(ap, ai, etree, j, c, p);
             assert(work[ai[p] as int] == j);
             assert(visited(work, j, ai[p] as int));
             lemma_closed_path(etree, work, j, ai[p] as int, c);
+        } else {
+            if c < j && work[c] == j { assert(in_v(ap, ai, e0, j, c)); }
         }
     }
 }
@@ -156,6 +164,10 @@ pub open spec fn lnz_covers(n: int, ap: Seq<usize>, ai: Seq<usize>, etree: Seq<u
     lnz.len() == n && forall|c: int| 0 <= c < n ==> #[trigger] lnz[c] >= cnt(ap, ai, etree, c, k)
 }
 
+// Lnz is exactly the column count of the symbolic factor
+pub open spec fn lnz_exact(n: int, ap: Seq<usize>, ai: Seq<usize>, etree: Seq<usize>, lnz: Seq<usize>, k: int) -> bool {
+    lnz.len() == n && forall|c: int| 0 <= c < n ==> #[trigger] lnz[c] == cnt(ap, ai, etree, c, k)
+}
 //@fn file=src/qdldl/qdldl.rs name=_etree ret=r
 //@contract
     requires
@@ -168,8 +180,9 @@ pub open spec fn lnz_covers(n: int, ap: Seq<usize>, ai: Seq<usize>, etree: Seq<u
         etree_wf(n as int, final(etree)@),
         // column counts of L are bounded by the dimension (no overflow of the counters)
         forall|i: int| 0 <= i < n ==> final(Lnz)[i] <= n,
-        // Lnz[c] is at least the number of rows whose elimination path (in the tree just computed) passes through c
-        lnz_covers(n as int, Ap@, Ai@, final(etree)@, final(Lnz)@, n as int),
+        // Lnz[c] is exactly the number of rows whose elimination path (in the tree just computed) passes through c:
+        // the number of entries of column c of L
+        lnz_exact(n as int, Ap@, Ai@, final(etree)@, final(Lnz)@, n as int),
 //@iter 1
 it0
 //@loop 1
@@ -182,7 +195,7 @@ it0
             forall|i: int| 0 <= i < n ==> (it0.index@ > 0 ==> #[trigger] work[i] < it0.index@),
             forall|i: int| 0 <= i < n ==> (it0.index@ == 0 ==> #[trigger] work[i] == 0),
             forall|i: int| 0 <= i < n ==> (it0.index@ == 0 ==> #[trigger] Lnz[i] == 0),
-            lnz_covers(n as int, Ap@, Ai@, etree@, Lnz@, it0.index@ as int),
+            lnz_exact(n as int, Ap@, Ai@, etree@, Lnz@, it0.index@ as int),
 //@body_start 1
         let ghost e0 = etree@;
         let ghost lnz0 = Lnz@;
@@ -203,8 +216,9 @@ it
                 forall|i: int| 0 <= i < n ==> work[i] <= j,
                 work[j as int] == j,
                 lnz0.len() == n, same_below(e0, etree@, gj),
-                forall|c: int| 0 <= c < n ==> #[trigger] Lnz[c] >= lnz0[c],
-                forall|c: int| 0 <= c < j ==> (#[trigger] work[c] == j ==> Lnz[c] >= lnz0[c] + 1),
+                e0.len() == n,
+                forall|c: int| 0 <= c < n ==> #[trigger] Lnz[c] == lnz0[c] + (if c < j && work[c] == j { 1int } else { 0int }),
+                forall|c: int| 0 <= c < j ==> (#[trigger] work[c] == j ==> in_v(Ap@, Ai@, e0, gj, c)),
                 closed_except(etree@, work@, gj, gj),
                 forall|p: int| Ap[j as int] <= p < Ap[j as int] + it.index@ ==> work[#[trigger] Ai[p] as int] == j,
 //@body_start 2
@@ -221,14 +235,23 @@ it
                     forall|q: int| 0 <= q < n ==> work[q] <= j,
                     work[j as int] == j,
                     lnz0.len() == n, same_below(e0, etree@, gj),
-                    forall|c: int| 0 <= c < n ==> #[trigger] Lnz[c] >= lnz0[c],
-                    forall|c: int| 0 <= c < j ==> (#[trigger] work[c] == j ==> Lnz[c] >= lnz0[c] + 1),
+                    e0.len() == n,
+                    forall|c: int| 0 <= c < n ==> #[trigger] Lnz[c] == lnz0[c] + (if c < j && work[c] == j { 1int } else { 0int }),
+                    forall|c: int| 0 <= c < j ==> (#[trigger] work[c] == j ==> in_v(Ap@, Ai@, e0, gj, c)),
+                    i < j ==> on_path(e0, gj, row, i as int),
                     closed_except(etree@, work@, gj, i as int),
                     forall|p: int| Ap[j as int] <= p < Ap[j as int] + it.index@ ==> work[#[trigger] Ai[p] as int] == j,
                     0 <= row <= j, Ap[j as int] <= prow < Ap[j + 1] <= Ai.len(), prow == Ap[j as int] + it.index@, row == Ai[prow], Ap.len() == n + 1,
                     forall|p: int| Ap[j as int] <= p < Ap[j + 1] ==> #[trigger] Ai[p] <= j,
                     work[row] == j || i == row,
                 decreases j - i,
+//@body_start 3
+                let ghost i0 = i as int;
+//@body_end 3
+                proof {
+                    assert(in_v_at(Ap@, Ai@, e0, gj, i0, prow));
+                    if etree@[i0] < j { lemma_on_path_extend(e0, gj, row, i0); }
+                }
 //@body_end 1
         proof { lemma_pass_done(n as int, Ap@, Ai@, e0, etree@, work@, lnz0, Lnz@, gj); }
 //@end
@@ -335,7 +358,8 @@ pub proof fn lemma_room(k: int, ap: Seq<usize>, ai: Seq<usize>, etree: Seq<usize
 }
 // the marked nodes are closed under parent links that stay below k, except possibly for the link into `cur`
 pub open spec fn mclosed(n: int, etree: Seq<usize>, wh: Seq<int>, k: int, cur: int) -> bool {
-    forall|x: int| 0 <= x < n ==> (#[trigger] wh[x] != 0 ==> etree[x] == QDLDL_UNKNOWN || etree[x] >= k || wh[etree[x] as int] != 0 || etree[x] == cur)
+    // (trigger etree[x], not wh[x]: the body mentions wh[etree[x]], which would re-trigger the quantifier along the whole path)
+    forall|x: int| #![trigger etree[x]] 0 <= x < n ==> (wh[x] != 0 ==> etree[x] == QDLDL_UNKNOWN || etree[x] >= k || wh[etree[x] as int] != 0 || etree[x] == cur)
 }
 pub proof fn lemma_mclosed_path(n: int, etree: Seq<usize>, wh: Seq<int>, k: int, x: int, c: int)
     requires mclosed(n, etree, wh, k, -1), etree.len() == n, wh.len() == n, 0 <= k <= n <= usize::MAX, 0 <= x < n, wh[x] != 0, on_path(etree, k, x, c),
@@ -392,6 +416,43 @@ pub proof fn lemma_post_lwf(n: int, lp: Seq<usize>, lnz: Seq<usize>, li: Seq<usi
         assert forall|k: int| 0 <= k < lp[n] implies #[trigger] li[k] < n by { let _ = li0[k]; }
     }
 }
+// strict lower triangularity as the solves of unit qdldl_kernels state it (same definitions)
+pub open spec fn l_in_col(n: int, lp: Seq<usize>, c: int, j: int) -> bool { 0 <= c < n && lp[c] <= j < lp[c + 1] }
+pub open spec fn l_strict(n: int, lp: Seq<usize>, li: Seq<usize>) -> bool {
+    forall|c: int, j: int| #[trigger] l_in_col(n, lp, c, j) ==> li[j] > c
+}
+// what the triangular solves need, without any assumption on the previous contents of L.  Folded (see l_wf_if_rows_ok).
+#[verifier::opaque]
+pub open spec fn l_complete(n: int, lp: Seq<usize>, li: Seq<usize>, lx: Seq<F>) -> bool { l_wf(n, lp, li, lx) && l_strict(n, lp, li) }
+pub proof fn lemma_find_col(lp: Seq<usize>, k: int, m: int) -> (c: int)
+    requires 0 < m < lp.len(), lp[0] == 0, 0 <= k < lp[m],
+    ensures 0 <= c < m, lp[c] <= k < lp[c + 1],
+    decreases m,
+{
+    if lp[m - 1] <= k { m - 1 } else { lemma_find_col(lp, k, m - 1) }
+}
+// exact counts + every structural entry placed  ==>  every column of L is full, so all of L's row indices are fresh ones
+pub proof fn lemma_l_complete(n: int, ap: Seq<usize>, ai: Seq<usize>, etree: Seq<usize>, lnz: Seq<usize>, lp: Seq<usize>, nc: Seq<usize>, li: Seq<usize>, lx: Seq<F>)
+    requires n > 0, lp_ok(n, lp, lnz, li.len() as int), lx.len() == li.len(), nc.len() == n,
+        lnz_exact(n, ap, ai, etree, lnz, n), filled_cnt(n, ap, ai, etree, lp, nc, n), filled_ok(n, lp, nc, li, n),
+    ensures forall|c: int| 0 <= c < n ==> #[trigger] nc[c] == lp[c + 1], l_complete(n, lp, li, lx),
+{
+    reveal(l_complete);
+    lemma_lp_mono(n, lp, lnz, li.len() as int);
+    assert forall|c: int| 0 <= c < n implies #[trigger] nc[c] == lp[c + 1] by {
+        assert(lp[c + 1] == psum(lnz, c + 1));
+        assert(lp[c] == psum(lnz, c));
+        assert(lnz[c] == cnt(ap, ai, etree, c, n));
+    }
+    assert(lp[0] == psum(lnz, 0));
+    assert forall|k: int| 0 <= k < lp[n] implies #[trigger] li[k] < n by {
+        let c = lemma_find_col(lp, k, n);
+        assert(nc[c] == lp[c + 1]);
+    }
+    assert forall|c: int, j: int| #[trigger] l_in_col(n, lp, c, j) implies li[j] > c by {
+        assert(nc[c] == lp[c + 1]);
+    }
+}
 // column c of L owns the slots lp[c] .. lp[c+1]; nc[c] is its next free slot
 pub open spec fn cols_ok(n: int, lp: Seq<usize>, nc: Seq<usize>) -> bool {
     nc.len() == n && forall|c: int| 0 <= c < n ==> lp[c] <= #[trigger] nc[c] <= lp[c + 1]
@@ -422,6 +483,10 @@ pub open spec fn filled_ok(n: int, lp: Seq<usize>, nc: Seq<usize>, li: Seq<usize
         n > 0 ==> filled_ok(n as int, final(Lp)@, final(iwork)@.subrange(2 * n, 3 * n), final(Li)@, n as int),
         // a completed factorisation has put every structural entry of L into its column: exactly the rows whose elimination path passes through c
         r is Ok ==> filled_cnt(n as int, Ap@, Ai@, etree@, final(Lp)@, final(iwork)@.subrange(2 * n, 3 * n), n as int),
+        // ... and with the exact column counts of _etree every column of L is then full: L is strictly lower triangular with all row
+        // indices < n, which is what the triangular solves (unit qdldl_kernels: l_wf, l_strict) rely on for their unchecked accesses
+        r is Ok && n > 0 && lnz_exact(n as int, Ap@, Ai@, etree@, Lnz@, n as int) ==> l_complete(n as int, final(Lp)@, final(Li)@, final(Lx)@)
+            && forall|c: int| 0 <= c < n ==> #[trigger] final(iwork)@[2 * n + c] == final(Lp)@[c + 1],
         // a row index of L is either a freshly written row (< n) or what was there before
         forall|j: int| 0 <= j < old(Li)@.len() ==> #[trigger] final(Li)@[j] < n || final(Li)@[j] == old(Li)@[j],
         // so L is fit for the triangular solves if the row indices were in range before (spalloc zeros, or an earlier factorisation)
@@ -447,6 +512,7 @@ pub open spec fn filled_ok(n: int, lp: Seq<usize>, nc: Seq<usize>, li: Seq<usize
     proof {
         assert forall|c: int| 0 <= c < n implies #[trigger] next_colspace@[c] - Lp@[c] == cnt(Ap@, Ai@, etree@, c, 1) by { lemma_cnt1(Ap@, Ai@, etree@, c); }
         lemma_post_lwf(gn, Lp@, lnz, Li@, Lx@, old(Li)@);
+        if n == 1 && lnz_exact(gn, Ap@, Ai@, etree@, lnz, gn) { lemma_l_complete(gn, Ap@, Ai@, etree@, lnz, Lp@, next_colspace@, Li@, Lx@); }
     }
     // loop_isolation(false) on the column loop only: the `return Err(..)` inside it must still know how the pieces y_markers / y_idx /
     // elim_buffer / next_colspace / y_vals (moved and split_at_mut borrows made before the loop) make up the final bwork / iwork / fwork
@@ -456,7 +522,10 @@ pub open spec fn filled_ok(n: int, lp: Seq<usize>, nc: Seq<usize>, li: Seq<usize
 //@before "return Err(QDLDLError::ZeroPivot);" #2
                 proof { lemma_post_lwf(gn, Lp@, lnz, Li@, Lx@, old(Li)@); }
 //@body_end 2
-        proof { lemma_post_lwf(gn, Lp@, lnz, Li@, Lx@, old(Li)@); }
+        proof {
+            lemma_post_lwf(gn, Lp@, lnz, Li@, Lx@, old(Li)@);
+            if k + 1 == n && lnz_exact(gn, Ap@, Ai@, etree@, lnz, gn) { lemma_l_complete(gn, Ap@, Ai@, etree@, lnz, Lp@, next_colspace@, Li@, Lx@); }
+        }
 //@iter 2
 it2
 //@loop 2
@@ -471,6 +540,8 @@ it2
             filled_cnt(gn, Ap@, Ai@, etree@, Lp@, next_colspace@, it2.index@ + 1),
             filled_ok(gn, Lp@, next_colspace@, Li@, it2.index@ + 1),
             l_wf_if_rows_ok(gn, old(Li)@, Lp@, Li@, Lx@),
+            it2.index@ + 1 == n && lnz_exact(gn, Ap@, Ai@, etree@, lnz, gn) ==> l_complete(gn, Lp@, Li@, Lx@)
+                && forall|c: int| 0 <= c < n ==> #[trigger] next_colspace@[c] == Lp@[c + 1],
             forall|j: int| 0 <= j < Li@.len() ==> #[trigger] Li@[j] < n || Li@[j] == old(Li)@[j],
             *regularize_count <= it2.index@ + 1, positiveValuesInD <= it2.index@ + 1,
             logical_factor ==> Lx@ == old(Lx)@ && Dinv@ == old(Dinv)@,
@@ -608,7 +679,7 @@ pub open spec fn ws_ok(w: QDLDLWorkspace<F>) -> bool {
     let n = w.triuA.n;
     &&& w.triuA.m == n
     &&& triu_o(n, w.triuA.colptr@, w.triuA.rowval@) && w.triuA.nzval@.len() == w.triuA.rowval@.len()
-    &&& etree_wf(n as int, w.etree@) && lnz_covers(n as int, w.triuA.colptr@, w.triuA.rowval@, w.etree@, w.Lnz@, n as int)
+    &&& etree_wf(n as int, w.etree@) && lnz_exact(n as int, w.triuA.colptr@, w.triuA.rowval@, w.etree@, w.Lnz@, n as int)
     &&& w.iwork@.len() == 3 * n && w.bwork@.len() == n && w.fwork@.len() == n && w.Dsigns@.len() == n
 }
 impl QDLDLWorkspace<F> {
@@ -650,6 +721,9 @@ pub open spec fn ws_static_same(w0: QDLDLWorkspace<F>, w1: QDLDLWorkspace<F>) ->
         final(workspace).regularize_count <= old(workspace).triuA.n,
         old(workspace).triuA.n > 0 ==> lp_ok(old(workspace).triuA.n as int, final(L).colptr@, old(workspace).Lnz@, old(L).rowval@.len() as int),
         old(workspace).triuA.n > 0 ==> l_wf_if_rows_ok(old(workspace).triuA.n as int, old(L).rowval@, final(L).colptr@, final(L).rowval@, final(L).nzval@),
+        // C12: a factorisation that reports success has filled every column of L completely with rows strictly below the diagonal and
+        // inside the matrix: l_wf and l_strict (folded in l_complete) are exactly what QDLDLFactorisation::solve / _solve require
+        r is Ok && old(workspace).triuA.n > 0 ==> l_complete(old(workspace).triuA.n as int, final(L).colptr@, final(L).rowval@, final(L).nzval@),
 //@end
 } // verus!
 fn main() {}
